@@ -20,7 +20,7 @@ def _setup(ip, env):
     from pyvc import models
     from pytrs.parser.plssdesc import plss_parse
     tw, sc = ARRANGEMENTS[env['arrangement']]
-    plss_stubs.install(ip, twprge_matches=tw, sec_matches=sc, layout_oracle=env.get('deduced'))
+    plss_stubs.install(ip, twprge_matches=tw, sec_matches=sc, layout_oracle=env.get('deduced'), pp_identity=False, pp_len_min=60)
     models.register_model(plss_parse.cleanup_desc, lambda ip_, a, k, n: plss_stubs.g_str('G_cleanup', a[0]))
 
 
@@ -47,7 +47,7 @@ def _unit(arr):
         params={'text': Str(), 'layout': Const(None), 'source': Opt(Str()), 'sec_within': Bool()},
         ghost={'arrangement': Const(arr),
                'deduced': Choice(Const('TRS_desc'), Const('desc_STR'), Const('S_desc_TR'), Const('TR_desc_S'), Const('copy_all'))},
-        requires=lambda text: len(text) >= 60, setup_params=_setup,
+        setup_params=_setup,
         ensures=[('well_formed_and_traceable', lambda text, source, result: tracts_traceable(result, text, source))])
 
 
